@@ -53,6 +53,11 @@ pub struct ExecConfig {
     /// Event kinds that "let time pass" must not fire while a task is runnable (deadlines:
     /// jumping over them would turn scheduling noise into an injected timeout).
     pub time_pass_never: &'static [&'static str],
+    /// Hand every poll a fresh waker and honour only the one handed out most recently: a wake
+    /// through an older waker is dropped.  The `Future` contract allows exactly that ("only the
+    /// Waker from the Context passed to the most recent call to poll should be scheduled to
+    /// receive a wakeup"); a future that keeps the waker of its first poll loses its wake-up.
+    pub strict_wakers: bool,
     /// PCT: number of priority change points.
     pub pct_depth: u32,
     /// PCT: change points are drawn in 0..pct_horizon steps.
@@ -67,6 +72,7 @@ impl Default for ExecConfig {
             time_pass_den: 0,
             step_budget: 1_000_000,
             time_pass_never: &[],
+            strict_wakers: false,
             pct_depth: 2,
             pct_horizon: 64,
         }
@@ -90,11 +96,32 @@ impl Wake for WakeEntry {
     }
 }
 
+/// A waker of one generation (strict-waker mode): live only while it is the task's latest.
+struct GenWaker {
+    entry: Arc<WakeEntry>,
+    gen: u64,
+    current: Arc<std::sync::atomic::AtomicU64>,
+}
+
+impl Wake for GenWaker {
+    fn wake(self: Arc<Self>) {
+        self.wake_by_ref()
+    }
+    fn wake_by_ref(self: &Arc<Self>) {
+        if self.current.load(Ordering::SeqCst) == self.gen {
+            self.entry.wake_by_ref();
+        } else {
+            crate::probe("exec.stale_waker_ignored");
+        }
+    }
+}
+
 struct Task {
     name: String,
     fut: Option<Pin<Box<dyn Future<Output = ()>>>>,
     wake: Arc<WakeEntry>,
     waker: Waker,
+    gen: Arc<std::sync::atomic::AtomicU64>,
     prio: u32,
     polls: u64,
     done: bool,
@@ -174,6 +201,7 @@ impl Exec {
             fut: Some(Box::pin(fut)),
             wake,
             waker,
+            gen: Arc::new(std::sync::atomic::AtomicU64::new(0)),
             prio,
             polls: 0,
             done: false,
@@ -263,7 +291,12 @@ impl Exec {
             }
         }
         self.last_polled = Some(id);
-        let waker = t.waker.clone();
+        let waker = if self.cfg.strict_wakers {
+            let g = t.gen.fetch_add(1, Ordering::SeqCst) + 1;
+            Waker::from(Arc::new(GenWaker { entry: t.wake.clone(), gen: g, current: t.gen.clone() }))
+        } else {
+            t.waker.clone()
+        };
         let mut cx = Context::from_waker(&waker);
         let mut fut = t.fut.take().expect("polling a finished task");
         let res = fut.as_mut().poll(&mut cx);
